@@ -14,7 +14,8 @@ PROFILES = {
     'C03': dict(new=8, set=50, get=4, obs=14, bindI=6, bindE=0, reset=1, dele=2, move=3, evall=0, bev=0, hold=0, unobs=3, fault=0, user=0),
     'C02': dict(new=8, set=40, get=4, obs=8, bindI=18, bindE=0, reset=2, dele=1, move=8, evall=0, bev=0, hold=0, unobs=1, fault=0, user=0),
     'C06': dict(obsreset=0.3, new=8, set=34, get=4, obs=8, bindI=2, bindE=16, reset=3, dele=2, move=2, evall=14, bev=4, hold=2, unobs=1, fault=0, user=0),
-    'C07': dict(new=6, set=30, get=6, obs=8, bindI=12, bindE=8, reset=10, dele=1, move=2, evall=6, bev=2, hold=0, unobs=1, fault=8, user=0),
+    'C07': dict(new=6, set=30, get=6, obs=8, bindI=12, bindE=8, reset=10, dele=1, move=2, evall=6, bev=2, hold=0, unobs=1, fault=8, user=0,
+                rebind=6),
     'C10': dict(new=8, set=24, get=4, obs=8, bindI=12, bindE=8, reset=2, dele=14, move=3, evall=6, bev=4, hold=5, unobs=2, fault=0, user=0),
     'C11': dict(new=8, set=28, get=4, obs=10, bindI=12, bindE=4, reset=1, dele=3, move=22, evall=4, bev=2, hold=0, unobs=1, fault=0, user=0),
     'C13': dict(new=6, set=40, get=10, obs=4, bindI=12, bindE=10, reset=1, dele=1, move=2, evall=12, bev=2, hold=0, unobs=0, fault=0, user=0),
@@ -158,6 +159,37 @@ class Gen:
             self.props[p] = dict(rank=rank, bound=True)
         else:
             self.props[p]['bound'] = True
+        self.props[p]['mode'] = mode
+        self.props[p]['inputs'] = self.inputs_of(e)
+
+    @staticmethod
+    def inputs_of(e):
+        t = e.split()
+        return sorted({int(t[i + 1]) for i in range(len(t) - 1) if t[i] == 'p'})
+
+    def op_rebind(self):
+        """rebinding probe: an observer of an immediately bound property that writes one of its CURRENT inputs is attached just
+        before the property is bound to an expression without that input (the replaced binding must be gone by the time the
+        observers hear about the new value), and detached right afterwards (so that the rank discipline is kept)"""
+        r = self.r
+        cands = [(p, a) for p, d in self.props.items() if d['bound'] and d.get('mode') == -1
+                 for a in d.get('inputs', []) if a in self.props and not self.props[a]['bound']]
+        if not cands:
+            return
+        p, a = r.choice(cands)
+        rank = self.props[p]['rank']
+        leaves = [q for q, d in self.props.items() if d['rank'] < rank and q not in (p, a)]
+        e = self.expr(leaves, r.choice([0, 1, 2]))
+        lab = self.next_label
+        self.next_label += 1
+        h = self.next_obs
+        self.next_obs += 1
+        self.emit(f"pobsset {p} {r.choice([0, 1, 1])} {lab} {h} {a}")
+        mode = -1 if (r.random() < 0.7 or not self.bevs) else r.choice(self.bevs)
+        self.emit(f"pbind {p} {mode} {e}")
+        self.emit(f"punobs {h}")
+        self.props[p]['mode'] = mode
+        self.props[p]['inputs'] = self.inputs_of(e)
 
     def op_bindI(self):
         self.bind(-1)
@@ -198,14 +230,16 @@ class Gen:
             d = self.next_prop
             self.next_prop += 1
             self.emit(f"pmovector {s} {d}")
-            self.props[d] = dict(rank=self.props[s]['rank'], bound=self.props[s]['bound'])
+            self.props[d] = dict(rank=self.props[s]['rank'], bound=self.props[s]['bound'], mode=self.props[s].get('mode'),
+                                 inputs=self.props[s].get('inputs', []))
             self.props[s]['bound'] = False
         else:
             d = self.pick(lambda p, _: p != s)
             if d is None:
                 return
             self.emit(f"pmoveassign {d} {s}")
-            self.props[d] = dict(rank=max(self.props[s]['rank'], self.props[d]['rank']), bound=self.props[s]['bound'])
+            self.props[d] = dict(rank=max(self.props[s]['rank'], self.props[d]['rank']), bound=self.props[s]['bound'],
+                                 mode=self.props[s].get('mode'), inputs=self.props[s].get('inputs', []))
             self.props[s]['bound'] = False
 
     def op_evall(self):
@@ -255,7 +289,8 @@ class Gen:
             self.op_new()
         fam = dict(new=self.op_new, set=self.op_set, get=self.op_get, obs=self.op_obs, bindI=self.op_bindI,
                    bindE=self.op_bindE, reset=self.op_reset, dele=self.op_dele, move=self.op_move, evall=self.op_evall,
-                   bev=self.op_bev, hold=self.op_hold, unobs=self.op_unobs, fault=self.op_fault, user=self.op_user)
+                   bev=self.op_bev, hold=self.op_hold, unobs=self.op_unobs, fault=self.op_fault, user=self.op_user,
+                   rebind=self.op_rebind)
         names = [k for k, v in self.p.items() if v > 0 and k in fam]
         weights = [self.p[k] for k in names]
         guard = 0
